@@ -118,7 +118,13 @@ class WSPeer(BasePeer):
         if "hex" in item:
             if self.sent_close and item.get("unless_closed"):
                 return
-            conn.write(bytes.fromhex(item["hex"]))
+            data = bytes.fromhex(item["hex"])
+            try:
+                if any(f.opcode == R.OP_CLOSE for f in R.decode_all(data)[0]):
+                    self.sent_close = True  # a well-behaved server sends one close frame only
+            except Exception:  # noqa
+                pass
+            conn.write(data)
         if item.get("end") in ("eof", "reset"):
             conn.link.finish(item["end"])
 
